@@ -52,6 +52,9 @@ pub enum LockFault {
     WrongBf { mode: u8 },
     /// wire corruption of the pair: 0 lock, 1 secret, 2 index
     Corrupt { field: u8 },
+    /// a foreign / fresh pair with the blinding factor shifted by (right lock - its lock): opens the
+    /// commitment if the two generators of the commitment parameters are related (g = h)
+    CompensatedBf { pick: u64 },
 }
 
 #[derive(Serialize, Deserialize, Clone, Debug, PartialEq)]
@@ -1355,6 +1358,7 @@ impl<'a> World<'a> {
             LockFault::ForeignPair { .. } => "foreign-pair",
             LockFault::WrongBf { .. } => "wrong-blinding-factor",
             LockFault::Corrupt { .. } => "corrupt-pair-encoding",
+            LockFault::CompensatedBf { .. } => "compensated-blinding-factor",
         }
     }
 
@@ -1411,6 +1415,18 @@ impl<'a> World<'a> {
                     }
                 };
                 (right_pair.clone(), refc::scb(&nb).to_vec())
+            }
+            Some(LockFault::CompensatedBf { pick }) => {
+                let cands: Vec<&Vec<u8>> = self.lockmsgs.iter().filter(|(c, p, _, _)| !(*c == ci && *p == pay)).map(|(_, _, a, _)| a).collect();
+                let other: Vec<u8> = if cands.is_empty() {
+                    let mut r = self.rng(ci, pay as i32, &format!("carrier/fresh-pair/{}", k));
+                    atoms::encode(&za::internal::test_new_revocation_pair(&mut r))
+                } else {
+                    cands[*pick as usize % cands.len()].clone()
+                };
+                let bf = refc::sc(&right_bf);
+                let (l_right, l_other) = (refc::sc(&right_pair[..32]), refc::sc(&other[..32]));
+                (other, refc::scb(&(bf + l_right - l_other)).to_vec())
             }
             Some(LockFault::Corrupt { field }) => {
                 let mut b = right_pair.clone();
